@@ -26,6 +26,8 @@ RULE = ("A corpus of N scripts is generated once from VERIF_SEED with Hypothesis
         "trees the main script is additionally given to loads() as text with the tree root as working directory, and each child "
         "serialises every program twice (the second text must equal the first). Non-trivial = script with >=2 symbols in one argument or an include over >=2 modes. "
         "Distinct = SHA-1 of the script text(s). evaluations = N scripts x K interpreters.")
+RULE += (" About 4% of the corpus are include trees in which several files declare the same program name (whichever file provides "
+         "the operation, it must be the same one under every hash seed).")
 ASSUMPTIONS = ["hash randomisation is the only configuration varied; each child is a fresh interpreter"]
 BUDGET = {"quick": (600, 1), "thorough": (4000, 4)}
 KSEEDS = {"quick": 8, "thorough": 32}
@@ -39,8 +41,36 @@ def _cfgs():
 
 
 @st.composite
+def same_name_tree(draw):
+    """Several included files declare the same program name (directly and through a wrapper), with different bodies on the same
+    number of modes; the main script applies that name. Whichever file provides the operation, it is the same one in every process."""
+    n = draw(st.integers(2, 4))
+    paths = draw(st.lists(st.sampled_from(["a.xbb", "b.xbb", "lib/a.xbb", "lib/c.xbb", "lib/deep/d.xbb", "zeta.xbb", "other/e.xbb", "m.xbb"]),
+                          min_size=n, max_size=n, unique=True))
+    nm = draw(st.integers(1, 3))
+    modes = draw(st.lists(st.integers(0, 40), min_size=nm, max_size=nm, unique=True))
+    files = {}
+    for i, pth in enumerate(paths):
+        gate = ["Sgate", "Rgate", "Dgate", "Xgate"][i]
+        body = "".join("%s(%s) | %d\n" % (gate, "0.%d" % (i + 1), m) for m in modes)
+        files[pth] = "name %s\nversion 1.0\n%s" % (draw(st.sampled_from(["sub", "sub", "Sub2"])), body)
+    incs = list(paths)
+    if draw(st.booleans()):
+        # one of the files is reached through a wrapper only
+        hidden = incs.pop(draw(st.integers(0, len(incs) - 1)))
+        files["wrap.xbb"] = 'name wrap\nversion 1.0\ninclude "%s"\nVac | 0\n' % hidden
+        incs.insert(draw(st.integers(0, len(incs))), "wrap.xbb")
+    call = "[%s]" % ", ".join(str(50 + j) for j in range(nm))
+    main = "name main\nversion 1.0\n" + "".join('include "%s"\n' % i for i in incs) + "sub | %s\nSub2 | %s\n" % (call, call)
+    files["main.xbb"] = main
+    return {"kind": "rawfiles", "files": files, "main": "main.xbb"}
+
+
+@st.composite
 def entry(draw):
     k = draw(st.integers(0, 7))
+    if k == 0 and draw(st.integers(0, 2)) == 0:
+        return draw(same_name_tree())
     if k <= 1:
         c = draw(c07.case("quick"))
         return {"kind": "files", "c07": c}
@@ -92,6 +122,9 @@ def entry(draw):
 
 def realise(e):
     """entry -> corpus record {id, text | files+main, nontrivial} or None when outside the domain."""
+    if e["kind"] == "rawfiles":
+        key = "\n".join("### %s\n%s" % kv for kv in sorted(e["files"].items()))
+        return {"id": sha(key), "files": e["files"], "main": e["main"], "nontrivial": True, "key": key}
     if e["kind"] == "files":
         c = e["c07"]
         try:
